@@ -53,6 +53,7 @@ theorem c05_on_source (ls : List Proc.Label) (s : Proc.PSt)
 
 
 
+
 -- BEGIN PINS (written by bin/mkpins; do not edit by hand)
 /-- the Go functions this property's model and obligations were written against have exactly the
 pinned skeletons (SHA-256 prefix of the atom list) -/
@@ -63,7 +64,7 @@ theorem pinned_skeletons_c05 :
      ("Scipipe.BaseProcess_CloseOutParamPorts", "b55e88685818f821"),
      ("Scipipe.NewSink", "a492528b88e6e985"),
      ("Scipipe.NewWorkflow", "17163fd29d8fb373"),
-     ("Scipipe.Process_Run", "05880ea16e590fb1"),
+     ("Scipipe.Process_Run", "40f832903317f455"),
      ("Scipipe.Sink_From", "c72c1df4af5c0d68"),
      ("Scipipe.Sink_FromParam", "be5cd0eedafe3561"),
      ("Scipipe.Sink_Run", "2d6c7d95ef617224"),
@@ -74,7 +75,7 @@ theorem pinned_skeletons_c05 :
      ("Scipipe.Workflow_SetSink", "7da5ff0b1e07295f"),
      ("Scipipe.Workflow_readyToRun", "378c8cdc8eb779a8"),
      ("Scipipe.Workflow_reconnectDeadEndConnections", "9ed90a908028bbfc"),
-     ("Scipipe.Workflow_runProcs", "e319d71e11b8d924"),
+     ("Scipipe.Workflow_runProcs", "62dfa98c32085220"),
      ("Scipipe.getBufsize", "65b7d390dc0d0c72"),
      ("Scipipe.mergeWFMaps", "c658dad781cfdc20"),
      ("Scipipe.taskQueue_NextTaskDone", "749f6263d8a0c13f"),
